@@ -71,6 +71,8 @@ class Fam:
                     return ("err", "absent", d)
                 return ("err", "tooLong", d)
             children = self.children(cur)
+            if re.fullmatch(r"\+?[0-9]+", k) and str(int(k)) in children and str(int(k)).isdigit():
+                k = str(int(k))          # usize::from_str accepts a leading '+' and leading zeros
             if k not in children:
                 # arrays: numeric parse
                 return ("err", "notFound", d + 1)
@@ -207,7 +209,7 @@ def parse_pkt(tok):
         f = dict(x.split("=", 1) for x in tok[4:-1].split(","))
         p = f["p"]
         return {"t": "PUB", "topic": uncp(f["t"]), "payload": (uncp(p) if not p.startswith("x") else None), "raw": p,
-                "q": f["q"], "r": f["r"], "d": f["d"], "code": f["code"], "cd": f["cd"], "rt": f["rt"]}
+                "q": f["q"], "r": f["r"], "d": f["d"], "code": f["code"], "cd": f["cd"], "rt": f["rt"], "up": f.get("up", "-")}
     if tok.startswith("SUB("):
         a = tok[4:-1].split(",")
         return {"t": "SUB", "filter": uncp(a[0]), "nl": a[1].split("=")[-1], "q": a[2].split("=")[-1]}
